@@ -126,12 +126,6 @@ func (n *nni) Apply() (err error) {
 	e1 = n.n1.Edges()[n12index]
 	e2 = n.n2.Edges()[n22index]
 
-	// The root is somwhere in the
-	// clade on the n1_2 side
-	if e1.Right() == n.n1 {
-		// Reorient n1-n2 edge
-		n.n1.Edges()[n1n2index].Inverse()
-	}
 
 	n.n1.Edges()[n12index] = e2
 	n.n2.Edges()[n22index] = e1
@@ -152,6 +146,8 @@ func (n *nni) Apply() (err error) {
 	} else {
 		e2.setRight(n.n1)
 	}
+
+	n.orientCentral(n.n1.Edges()[n1n2index])
 
 	n.applied = true
 
@@ -201,12 +197,6 @@ func (n *nni) Undo() (err error) {
 	e1 = n.n1.Edges()[n11index]
 	e2 = n.n2.Edges()[n12index]
 
-	// The root is somwhere in the
-	// clade on the n1_2 side (connected to n2)
-	if e2.Right() == n.n2 {
-		// Reorient n1-n2 edge
-		n.n1.Edges()[n1n2index].Inverse()
-	}
 
 	n.n1.Edges()[n11index] = e2
 	n.n2.Edges()[n12index] = e1
@@ -228,7 +218,31 @@ func (n *nni) Undo() (err error) {
 		e2.setRight(n.n1)
 	}
 
+	n.orientCentral(n.n1.Edges()[n1n2index])
+
 	n.applied = false
 
 	return
+}
+
+// Orients the branch n1-n2 away from the root, whatever the position of the
+// root is when the subtrees are exchanged (the tree may have been rerooted
+// between Apply and Undo): the upper end is the root, or the node at which
+// another branch still arrives.
+func (n *nni) orientCentral(central *Edge) {
+	upper := func(x *Node) bool {
+		if x == n.t.Root() {
+			return true
+		}
+		for _, e := range x.Edges() {
+			if e != central && e.Right() == x {
+				return true
+			}
+		}
+		return false
+	}
+	u1, u2 := upper(n.n1), upper(n.n2)
+	if (u1 && !u2 && central.Left() != n.n1) || (u2 && !u1 && central.Left() != n.n2) {
+		central.Inverse()
+	}
 }
